@@ -97,6 +97,8 @@ def run(repo, rep):
     rule_cpu_pass_move(repo, rep)
     rep.clause("C13-aj", "chain merges (pre -> mid -> post into mid) go ahead only if each tensor in between has exactly one consumer")
     rule_chain_merge_consumers(repo, rep)
+    rep.clause("C13-ao", "table generators evaluate their math function under a handler for OverflowError (entries beyond the float range saturate)")
+    rule_lut_fn_overflow(repo, rep)
     rep.clause("C13-an", "operands that get_split_inputs_axis asserts constant are required constant by a registered constraint of the operator")
     rule_asserted_constants(repo, rep)
     rep.clause("C13-am", "sizes of -1 ('the rest') are resolved in every branch of get_split_inputs_axis that turns sizes into offsets")
@@ -2328,3 +2330,31 @@ def rule_asserted_constants(repo, rep):
                           f"no constraint of {op_t} tests `op.inputs[{i}].values is None`: {op_t} with a computed `{nm}` passes both checkers and aborts in `{str(norm(a))[:70]}`")
     if n < 2:
         raise AnalysisError(f"get_split_inputs_axis: {n} constness assertions on named operands")
+
+
+def rule_lut_fn_overflow(repo, rep):
+    """(ao) the table generators of lut.py evaluate a `math` function (math.exp ..) at every dequantised input code. `math` functions raise
+    OverflowError where C returns inf (exp above ~709: int16 input scale 0.05 reaches 1638). Every call of the function parameter is inside
+    a `try` that catches OverflowError (or wider)."""
+    lu = repo.mod("lut")
+    n = 0
+    for q, fn in lu.functions.items():
+        params = [a.arg for a in fn.args.args]
+        if "lut_fn" not in params:
+            continue
+        for c in ast.walk(fn):
+            if isinstance(c, ast.Call) and isinstance(c.func, ast.Name) and c.func.id == "lut_fn":
+                n += 1
+                ok = False
+                cur = lu.parents.get(c)
+                while cur is not None and cur is not fn:
+                    if isinstance(cur, ast.Try) and any(c is x for st in cur.body for x in ast.walk(st)):
+                        for h in cur.handlers:
+                            names = {"BaseException"} if h.type is None else {str(norm(x)) for x in ([h.type] if not isinstance(h.type, ast.Tuple) else h.type.elts)}
+                            if names & {"OverflowError", "ArithmeticError", "Exception", "BaseException"}:
+                                ok = True
+                    cur = lu.parents.get(cur)
+                rep.check(ok, "C13-ao", f"ethosu/vela/lut.py:{q}", f"`{str(norm(c))[:50]}` is evaluated under a handler for OverflowError",
+                          "math.exp raises OverflowError ('math range error') for arguments above ~709: an int16 EXP with input scale 0.05 (range +-1638) aborts the compilation instead of saturating the table entry")
+    if n < 1:
+        raise AnalysisError("lut.py: no call of a table function parameter found")
